@@ -332,6 +332,23 @@ func c09Sampler(c *Ctx, prog *load.Program) {
 		if !readOK || !canonical || !nonZero {
 			good, detail = false, fmt.Sprintf("an accepted candidate is not guarded by {read succeeded: %v, not reduced (< n): %v, non-zero: %v} at %s", readOK, canonical, nonZero, PosStr(prog, ret.Pos))
 		}
+		// ... and by nothing else: the first candidate in [1, n) is the one returned.  Every condition on the path that
+		// looks at candidate bytes must be one of the two tests (E >= n, fn(E) = 0) of some block.
+		for _, l := range ret.Guard {
+			blocks := entropySyms(l.T)
+			if len(blocks) == 0 {
+				continue
+			}
+			okLit := false
+			for _, b := range blocks {
+				if l.T == sym.Canon(models.GeModulus(sym.Fn, b)) || l.T == sym.Canon(models.RingEq(models.OfBytes(sym.Fn, b), fnZero)) {
+					okLit = true
+				}
+			}
+			if !okLit {
+				good, detail = false, fmt.Sprintf("acceptance of a candidate depends on a condition other than E < n and fn(E) != 0: %s (at %s)", l.T, PosStr(prog, ret.Pos))
+			}
+		}
 	}
 	if good && (nAcc == 0 || nRej == 0) {
 		good, detail = false, "no accepting or no rejecting return"
@@ -339,6 +356,27 @@ func c09Sampler(c *Ctx, prog *load.Program) {
 	c.R.Decide(good, "C09-3", "sampler/reject-not-reduce", pos, fmt.Sprintf("%d accepting returns, each fn(E) for a 32-byte block E with read error nil, E < n and fn(E) != 0 tested on the path; %d error returns with a nil scalar", nAcc, nRej), detail)
 	c.R.Decide(maxReads >= 1 && maxReads <= 8, "C09-3", "sampler/bounded", pos, fmt.Sprintf("at most %d candidates are read before giving up with an error", maxReads), fmt.Sprintf("unexpected number of candidate reads: %d", maxReads))
 	c.R.Floor("C09-3", 2)
+}
+
+// entropySyms lists the candidate blocks (symbols "entropy<i>") a term mentions.
+func entropySyms(t *sym.Term) []*sym.Term {
+	var out []*sym.Term
+	seen := map[*sym.Term]bool{}
+	var walk func(x *sym.Term)
+	walk = func(x *sym.Term) {
+		if x == nil || seen[x] {
+			return
+		}
+		seen[x] = true
+		if (x.Op == "s" || x.Op == "sb") && strings.HasPrefix(x.S, "entropy") {
+			out = append(out, x)
+		}
+		for _, a := range x.Args {
+			walk(a)
+		}
+	}
+	walk(t)
+	return out
 }
 
 func c09Drbg(c *Ctx, prog *load.Program) {
